@@ -34,6 +34,33 @@ CLAIMED = {
         "Trusted: the independent decoder/opcode table, z3, CPython. The opcodes/asm/source-map text outputs are not covered.",
         "DESIGN.md 3/C16",
     ),
+    "C01": (
+        "proof",
+        "contract-based deductive verification, template route: contract `bytecode of compile(P, c) == reference semantics of P` on the real compiler, discharged per template and configuration for all inputs by z3 on the bytecode denotation",
+        "Scoped, per instance: for every template program P inside the reference semantics' subset (one-word types, static arrays/structs/tuples, storage incl. HashMap, control flow, internal calls, events, asserts with reasons, public getters, "
+        "default arguments, __default__) and each configuration (legacy none/gas/codesize, Venom none/O2/O3/Os), for ALL calldata, values, contexts and prior storage: success/failure, return and revert data, logs and final state of the deployed "
+        "run-time bytecode equal the source semantics. Programs are not composed: this is a proof per template, not for every program. Dynamic types, external calls, create and immutables are outside the reference semantics here (C02/C05/C06/C12/C13 cover them).",
+        "Trusted: vverif/spec_source.py (reference semantics written from docs/), the front end's parser/type annotations, bytecode denotation (sem/), z3/cvc5. Counterexamples are replayed natively in pyrevm against the reference semantics evaluated concretely.",
+        "DESIGN.md 3/C01",
+    ),
+    "C02": (
+        "proof",
+        "contract-based deductive verification, relational template contracts: the real compiler's bytecodes under two configurations run against one shared symbolic environment and are proved observationally equal by z3",
+        "Per template (all of vverif/contracts/templates_lib.py incl. byte strings, dynamic arrays, external calls, raw_call, create_*, events) and configuration pair (legacy gas vs Venom O2; within each pipeline none/gas/codesize resp. none/O2/O3/Os; "
+        "cancun vs paris for stateless templates), for ALL calldata, values, prior state and callee behaviours: same status, return/revert data, logs, outgoing calls (target, value, calldata) and final state (modulo unobservable slack of byte strings). "
+        "Cross-pipeline pairs of byte-string templates and non-linear arithmetic templates are thorough-tier only. Per-instance proofs; --disable-* flags and debug mode are not enumerated yet.",
+        "Trusted: bytecode denotation (sem/), z3/cvc5. Assumes the identity precompile copies its input, code sizes < 2**32, msize a multiple of 32 below 2**32. Storage layouts differ across EVM targets (slot 0 reserved before cancun), so stateful templates are not compared across targets.",
+        "DESIGN.md 3/C02",
+    ),
+    "C08": (
+        "proof",
+        "contract-based deductive verification, template route: bytecode vs the reference semantics (left-to-right evaluation, by-value copies) on a position x effect template family, all inputs, z3",
+        "Per template of the position x effect family (binary/comparison/boolean operators, conditional expression, internal-call arguments incl. nested, assignment and subscript targets, tuple/list literals, builtin/convert/log argument with one effect, "
+        "aug-assignment, statement expressions, by-value reads before a later effect) and configuration: for ALL inputs the sequence and payload of logs, the result and the final state equal the reference semantics, "
+        "i.e. every effect happens exactly once and in source order. One genuine Venom defect is listed as a known finding (F9); the legacy operand-order defect F1 was repaired (fix: commit).",
+        "Trusted: vverif/spec_source.py, bytecode denotation, z3/cvc5. Positions outside the family (external-call arguments, dynamic-array append/pop inside expressions, struct literals) are not covered yet.",
+        "DESIGN.md 3/C08",
+    ),
     "C07": (
         "proof",
         "contract-based deductive verification, template route: the real compiler's run-time bytecode for each contract shape and configuration is denoted for all calldata/values and the dispatch contract is discharged by z3; jump-table kernels by bounded run-time contract evaluation",
